@@ -67,6 +67,10 @@ impl<S: Storage> TableScanExecutor<S> {
             .await?;
 
         while let Some(mut x) = it.next_batch(None).await? {
+            // verif hook: a batch of an executor-level scan was fetched (yield point between the
+            // batches of a streaming scan; the read txn's pin must still be held here)
+            #[cfg(risinglight_verif)]
+            crate::verif::point("scan.batch", &x.cardinality().to_string()).await;
             if self.columns.is_empty() {
                 x = DataChunk::no_column(x.cardinality());
             } else if col_idx.len() > user_columns {
